@@ -908,6 +908,11 @@ class Parser:
                     # Parsing a kwarg
                     ensure(dyn_kwargs is None)
                     key = self.stream.current.value
+                    if any(k.key == key for k in kwargs):
+                        self.fail(
+                            f"duplicate keyword argument {key!r}",
+                            self.stream.current.lineno,
+                        )
                     self.stream.skip(2)
                     value = self.parse_expression()
                     kwargs.append(nodes.Keyword(key, value, lineno=value.lineno))
